@@ -9,7 +9,7 @@
    Part C  conformance with the eviction-free specification (the trace monitor) under the
            environment guards status_ok and no_evict.
    Part D  witnesses: the code before the repairs violates the property; non-vacuity. *)
-From Coq Require Import List Arith Bool Lia PeanoNat.
+From Coq Require Import List Arith Bool Lia PeanoNat Permutation.
 From Charon Require Import Stores.ParSigDB.
 Import ListNotations.
 
@@ -315,7 +315,7 @@ Lemma mcall_static s cl e :
   /\ c_abort (mcall s cl e) = c_abort cl.
 Proof.
   destruct e as [pk sub p|pk]; simpl; [|rewrite orb_false_r; auto 10].
-  destruct (classify p (ent s (ekey_of cl pk sub))); simpl; rewrite ?orb_false_r; auto 10.
+  destruct (classify p (ent s (ekey_of cl pk sub))); simpl; rewrite ?orb_false_r; auto 12.
 Qed.
 
 (* where the new partial went: the entry of its key is extended by it; any entry can only have
@@ -494,25 +494,26 @@ Lemma step_call s l s' c cl : step t s l = Some s' -> calls s' c = Some cl ->
   \/ (~ is_entry_of c l /\
       ((calls s c = None /\ c_out cl = [] /\ exists i d st b, l = ABegin c i d st b /\ cl = new_call i d st b)
        \/ (exists cl1, calls s c = Some cl1 /\ c_out cl = c_out cl1 /\ c_duty cl = c_duty cl1 /\ c_st cl = c_st cl1
-                       /\ c_int cl = c_int cl1 /\ c_mis cl = c_mis cl1 /\ c_oth cl = c_oth cl1))).
+                       /\ c_int cl = c_int cl1 /\ c_mis cl = c_mis cl1 /\ c_oth cl = c_oth cl1
+                       /\ c_todo cl = c_todo cl1 /\ c_abort cl = c_abort cl1))).
 Proof.
   intros H Hc. destruct l as [c' i d st b|c' e|c' er out il|d].
   - right. split; [intros [e E]; discriminate|].
     apply step_begin in H. destruct H as [Hn [_ ->]]. simpl in Hc. unfold updc in Hc.
     destruct (Nat.eqb_spec c c') as [->|Hne].
     + injection Hc as <-. left. repeat split; auto. exists i, d, st, b. auto.
-    + right. exists cl. auto 10.
+    + right. exists cl. auto 12.
   - apply step_entry in H. destruct H as [cl1 [Hc1 [_ [_ [_ ->]]]]]. simpl in Hc. unfold updc in Hc.
     destruct (Nat.eqb_spec c c') as [->|Hne].
     + injection Hc as <-. left. exists e, cl1. auto.
-    + right. split; [intros [e' E]; injection E as -> _; contradiction|]. right. exists cl. auto 10.
+    + right. split; [intros [e' E]; injection E as -> _; contradiction|]. right. exists cl. auto 12.
   - right. split; [intros [e E]; discriminate|].
     apply step_end in H. destruct H as [cl1 [Hc1 [_ [_ [_ [_ ->]]]]]]. simpl in Hc. unfold updc in Hc.
     destruct (Nat.eqb_spec c c') as [->|Hne].
-    + injection Hc as <-. right. exists cl1. simpl. auto 10.
-    + right. exists cl. auto 10.
+    + injection Hc as <-. right. exists cl1. simpl. auto 12.
+    + right. exists cl. auto 12.
   - right. split; [intros [e E]; discriminate|].
-    apply step_trim in H. subst s'. simpl in Hc. right. exists cl. auto 10.
+    apply step_trim in H. subst s'. simpl in Hc. right. exists cl. auto 12.
 Qed.
 
 Lemma step_calls_mono s l s' c cl : step t s l = Some s' -> calls s c = Some cl -> exists cl', calls s' c = Some cl'.
@@ -606,12 +607,17 @@ Proof.
   apply step_end in H2. destruct H2 as [cl [Hc [Ho [Hab [He [Hil _]]]]]].
   assert (I : MInv s1) by (eapply run_minv; [apply minv_init | exact H1]).
   destruct (Hab (m_noab _ I _ _ Hc)) as [Ht Hok]. apply out_ok_spec in Hok. destruct Hok as [Hi [Hn Hl]].
-  exists s1, cl. repeat split; auto; try (apply Hi); try (apply Hn).
-  - intros ->. simpl in He. apply andb_true_iff in He. destruct He as [A _]. apply negb_true_iff in A. exact A.
-  - intros ->. simpl in He. apply andb_true_iff in He. destruct He as [_ A]. apply negb_true_iff in A. exact A.
-  - intros [A B]. destruct er; simpl in He; [reflexivity | congruence | congruence].
+  exists s1, cl.
+  split; [exact H1|]. split; [exact Hc|]. split; [exact Ho|]. split; [exact Ht|].
+  split; [exact Hi|]. split; [exact Hn|]. split; [exact Hl|].
+  split; [|split; [|split]].
+  - split.
+    + intros ->. simpl in He. apply andb_true_iff in He. destruct He as [A B].
+      apply negb_true_iff in A. apply negb_true_iff in B. auto.
+    + intros [A B]. destruct er; simpl in He; [reflexivity | congruence | congruence].
   - intros ->. exact He.
   - intros ->. exact He.
+  - exact Hil.
 Qed.
 
 (* A + B: delivered = fired by an entry of this very call, whatever else is in the set and
@@ -623,3 +629,856 @@ Proof.
   intros H x. destruct (delivery _ _ _ _ _ _ _ H) as [s1 [cl [H1 [Hc [_ [_ [Hi _]]]]]]].
   rewrite Hi. eapply due_exact; eauto.
 Qed.
+
+(* ---- at most once ---- *)
+
+(* an entry that holds t partials over one root is never shrunk (only a trim removes it) *)
+Lemma step_keeps_full s l s' k ty r : step t s l = Some s' -> l <> ATrim (kduty k) ->
+  t <= cnt ty r (ent s k) -> exists ext, ent s' k = ent s k ++ ext.
+Proof.
+  intros H Hl Hc. pose proof (cnt_le ty r (ent s k)) as Hle.
+  destruct l as [c i d st b|c e|c er out il|d].
+  - apply step_begin in H. destruct H as [_ [_ ->]]. exists []. simpl. rewrite app_nil_r. reflexivity.
+  - apply step_entry in H. destruct H as [cl [_ [_ [_ [_ ->]]]]]. simpl.
+    destruct (mstore_ent s cl e k) as [E|[pk [sub [p [_ [_ [[_ E]|[[Hlt _]|[_ [Hlt _]]]]]]]]]].
+    + exists []. rewrite E, app_nil_r. reflexivity.
+    + exists [p]. exact E.
+    + lia.
+    + rewrite app_length in Hlt. simpl in Hlt. lia.
+  - apply step_end in H. destruct H as [cl [_ [_ [_ [_ [_ ->]]]]]]. exists []. simpl. rewrite app_nil_r. reflexivity.
+  - apply step_trim in H. subst s'. simpl. exists [].
+    destruct (duty_eqb (kduty k) d) eqn:E; [apply duty_eqb_eq in E; subst d; contradiction|].
+    simpl. rewrite app_nil_r. reflexivity.
+Qed.
+
+Lemma run_keeps_full ls k ty r : forall s s', run t s ls = Some s' -> ~ In (ATrim (kduty k)) ls ->
+  t <= cnt ty r (ent s k) -> exists ext, ent s' k = ent s k ++ ext.
+Proof.
+  induction ls as [|l ls IH]; intros s s' H Hn Hc.
+  - injection H as <-. exists []. rewrite app_nil_r. reflexivity.
+  - apply run_cons in H. destruct H as [s1 [H1 H2]].
+    destruct (step_keeps_full _ _ _ k ty r H1) as [e1 E1]; [intro; subst; apply Hn; left; reflexivity | exact Hc|].
+    destruct (IH _ _ H2) as [e2 E2]; [intro; apply Hn; right; assumption | rewrite E1, cnt_app; lia|].
+    exists (e1 ++ e2). rewrite E2, E1, app_assoc. reflexivity.
+Qed.
+
+(* D: two firings for one key with no trim of the duty in between are over different roots, and
+   then the key holds at least 2t distinct shares *)
+Theorem at_most_once l1 s1 c1 cl1 pk sub p1 x1 s1' l2 s2 c2 cl2 p2 x2 :
+  run t init l1 = Some s1 -> calls s1 c1 = Some cl1 -> mfire s1 cl1 (EGood pk sub p1) = Some x1 ->
+  step t s1 (AEntry c1 (EGood pk sub p1)) = Some s1' -> run t s1' l2 = Some s2 ->
+  calls s2 c2 = Some cl2 -> c_duty cl2 = c_duty cl1 -> mfire s2 cl2 (EGood pk sub p2) = Some x2 ->
+  ~ In (ATrim (c_duty cl1)) l2 ->
+  eroot (dtype (c_duty cl1)) p1 <> eroot (dtype (c_duty cl1)) p2 /\
+  (forall S, (forall q, In q (ent s2 (ekey_of cl2 pk sub) ++ [p2]) -> In (share q) S) -> 2 * t <= length S).
+Proof.
+  intros Hr1 Hc1 Hf1 Hst Hr2 Hc2 Hd Hf2 Hnt.
+  set (ty := dtype (c_duty cl1)). set (k := ekey_of cl1 pk sub).
+  assert (Hk : ekey_of cl2 pk sub = k) by (unfold k, ekey_of; rewrite Hd; reflexivity).
+  pose proof (mfire_ent _ _ _ _ _ _ Hf1) as He1. fold k in He1.
+  apply mfire_iff in Hf1. cbv zeta in Hf1. fold k ty in Hf1. destruct Hf1 as [Ecl1 [Hl1 _]].
+  apply mfire_iff in Hf2. cbv zeta in Hf2. rewrite Hk, Hd in Hf2. fold ty in Hf2. destruct Hf2 as [Ecl2 [Hl2 _]].
+  rewrite group_cnt in Hl1, Hl2.
+  assert (Hs1' : ent s1' k = ent s1 k ++ [p1]).
+  { apply step_entry in Hst. destruct Hst as [cl [Hc [_ [_ [_ ->]]]]]. simpl.
+    rewrite Hc1 in Hc. injection Hc as <-. exact He1. }
+  assert (Hfull : t <= cnt ty (eroot ty p1) (ent s1' k)) by (rewrite Hs1'; lia).
+  destruct (run_keeps_full l2 k ty (eroot ty p1) _ _ Hr2 Hnt Hfull) as [ext Hext].
+  assert (I2 : MInv s2).
+  { eapply run_minv; [|exact Hr2]. eapply step_minv; [|exact Hst]. eapply run_minv; [apply minv_init | exact Hr1]. }
+  assert (Hne : eroot ty p1 <> eroot ty p2).
+  { intro E. rewrite Hext, !cnt_app, cnt_one in Hl2. rewrite <- E, Nat.eqb_refl in Hl2. lia. }
+  split; [exact Hne|]. intros S HS. rewrite Hk in HS.
+  set (L := ent s2 k ++ [p2]) in *.
+  assert (HnL : NoDup (map share L)) by (apply nodup_snoc; [apply (m_nodup _ I2) | apply classify_new; exact Ecl2]).
+  assert (Hincl : incl (map share L) S).
+  { intros sh Hsh. apply in_map_iff in Hsh. destruct Hsh as [q [<- Hq]]. apply HS. exact Hq. }
+  pose proof (NoDup_incl_length HnL Hincl) as Hlen. rewrite map_length in Hlen.
+  pose proof (cnt_disjoint ty _ _ L Hne) as Hdis.
+  assert (t <= cnt ty (eroot ty p1) L) by (unfold L; rewrite Hext, !cnt_app; lia).
+  lia.
+Qed.
+
+(* every stored partial was handed in by some entry of the trace *)
+Lemma step_ent_from s l s' k q : step t s l = Some s' -> In q (ent s' k) ->
+  In q (ent s k) \/ exists c pk sub, l = AEntry c (EGood pk sub q).
+Proof.
+  intros H Hq. destruct l as [c i d st b|c e|c er out il|d].
+  - apply step_begin in H. destruct H as [_ [_ ->]]. left. exact Hq.
+  - apply step_entry in H. destruct H as [cl [_ [_ [_ [_ ->]]]]]. simpl in Hq.
+    destruct (mstore_ent s cl e k) as [E|[pk [sub [p [-> [_ [[_ E]|[[_ E]|[_ [_ E]]]]]]]]]]; rewrite E in Hq.
+    + left. exact Hq.
+    + apply in_app_iff in Hq. destruct Hq as [Hq|[<-|[]]]; [left; exact Hq | right; eauto].
+    + apply filter_In in Hq. left. tauto.
+    + apply filter_In in Hq. destruct Hq as [Hq _]. apply in_app_iff in Hq.
+      destruct Hq as [Hq|[<-|[]]]; [left; exact Hq | right; eauto].
+  - apply step_end in H. destruct H as [cl [_ [_ [_ [_ [_ ->]]]]]]. left. exact Hq.
+  - apply step_trim in H. subst s'. simpl in Hq. destruct (duty_eqb (kduty k) d && memk k (kbd s)); [contradiction | left; exact Hq].
+Qed.
+
+Lemma run_ent_from ls : forall s s' k q, run t s ls = Some s' -> In q (ent s' k) ->
+  In q (ent s k) \/ exists c pk sub, In (AEntry c (EGood pk sub q)) ls.
+Proof.
+  induction ls as [|l ls IH]; intros s s' k q H Hq.
+  - injection H as <-. left. exact Hq.
+  - apply run_cons in H. destruct H as [s1 [H1 H2]].
+    destruct (IH _ _ _ _ H2 Hq) as [Hq1|[c [pk [sub Hin]]]].
+    + destruct (step_ent_from _ _ _ _ _ H1 Hq1) as [Hq0|[c [pk [sub ->]]]]; [left; exact Hq0|].
+      right. exists c, pk, sub. left. reflexivity.
+    + right. exists c, pk, sub. right. exact Hin.
+Qed.
+
+Definition shares_within (ls : list label) (S : list nat) : Prop :=
+  forall c pk sub q, In (AEntry c (EGood pk sub q)) ls -> In (share q) S.
+
+(* ---- the duty of a call, read off the trace ---- *)
+Fixpoint duty_of (ls : list label) (c : nat) : option duty :=
+  match ls with
+  | [] => None
+  | ABegin c' _ d _ _ :: r => if c' =? c then Some d else duty_of r c
+  | _ :: r => duty_of r c
+  end.
+
+Lemma duty_of_app l1 l2 c :
+  duty_of (l1 ++ l2) c = match duty_of l1 c with Some d => Some d | None => duty_of l2 c end.
+Proof.
+  induction l1 as [|l r IH]; simpl; [reflexivity|].
+  destruct l; try exact IH. destruct (c0 =? c); [reflexivity | exact IH].
+Qed.
+
+Lemma duty_of_calls pre : forall s c, run t init pre = Some s ->
+  duty_of pre c = option_map c_duty (calls s c).
+Proof.
+  induction pre as [|l pre IH] using rev_ind; intros s c H.
+  - injection H as <-. reflexivity.
+  - apply run_snoc in H. destruct H as [s1 [H1 H2]]. rewrite duty_of_app, (IH _ c H1).
+    destruct (calls s c) as [cl|] eqn:Ec.
+    + destruct (step_call _ _ _ _ _ H2 Ec) as [[e [cl1 [-> [Hc1 ->]]]]|[_ [[Hn [_ [i [d [st [b [-> ->]]]]]]]|[cl1 [Hc1 [_ [Hd _]]]]]]].
+      * rewrite Hc1. simpl. destruct (mcall_static s1 cl1 e) as [_ [_ [-> _]]]. reflexivity.
+      * rewrite Hn. simpl. rewrite Nat.eqb_refl. reflexivity.
+      * rewrite Hc1. simpl. rewrite Hd. reflexivity.
+    + destruct (calls s1 c) as [cl1|] eqn:Ec1.
+      * destruct (step_calls_mono _ _ _ _ _ H2 Ec1) as [cl' Hc']. congruence.
+      * simpl. destruct l; try reflexivity. destruct (Nat.eqb_spec c0 c) as [->|]; [|reflexivity].
+        apply step_begin in H2. destruct H2 as [_ [_ ->]]. simpl in Ec. rewrite updc_same in Ec. discriminate.
+Qed.
+
+Lemma duty_of_prefix pre post c d : duty_of pre c = Some d -> duty_of (pre ++ post) c = Some d.
+Proof. intro H. rewrite duty_of_app, H. reflexivity. Qed.
+
+(* a closed call stays closed *)
+Lemma step_closed s l s' c cl : step t s l = Some s' -> calls s c = Some cl -> c_open cl = false ->
+  exists cl', calls s' c = Some cl' /\ c_open cl' = false.
+Proof.
+  intros H Hc Ho. destruct l as [c' i d st b|c' e|c' er out il|d].
+  - apply step_begin in H. destruct H as [Hn [_ ->]]. simpl. unfold updc.
+    destruct (Nat.eqb_spec c c') as [->|]; [congruence | eauto].
+  - apply step_entry in H. destruct H as [cl1 [Hc1 [Ho1 [_ [_ ->]]]]]. simpl. unfold updc.
+    destruct (Nat.eqb_spec c c') as [->|]; [congruence | eauto].
+  - apply step_end in H. destruct H as [cl1 [Hc1 [Ho1 [_ [_ [_ ->]]]]]]. simpl. unfold updc.
+    destruct (Nat.eqb_spec c c') as [->|]; [congruence | eauto].
+  - apply step_trim in H. subst s'. simpl. eauto.
+Qed.
+
+Lemma run_closed ls : forall s s' c cl, run t s ls = Some s' -> calls s c = Some cl -> c_open cl = false ->
+  exists cl', calls s' c = Some cl' /\ c_open cl' = false.
+Proof.
+  induction ls as [|l ls IH]; intros s s' c cl H Hc Ho; [injection H as <-; eauto|].
+  apply run_cons in H. destruct H as [s1 [H1 H2]].
+  destruct (step_closed _ _ _ _ _ H1 Hc Ho) as [cl1 [Hc1 Ho1]]. eapply IH; eauto.
+Qed.
+
+(* two firings for one key at two positions of one trace *)
+Lemma two_fires ls s a c1 pk sub p1 m c2 p2 rest sa cla x1 sa' cla' x2 d :
+  run t init ls = Some s ->
+  ls = a ++ AEntry c1 (EGood pk sub p1) :: m ++ AEntry c2 (EGood pk sub p2) :: rest ->
+  run t init a = Some sa -> calls sa c1 = Some cla -> mfire sa cla (EGood pk sub p1) = Some x1 ->
+  run t init (a ++ AEntry c1 (EGood pk sub p1) :: m) = Some sa' -> calls sa' c2 = Some cla' ->
+  mfire sa' cla' (EGood pk sub p2) = Some x2 ->
+  c_duty cla = d -> c_duty cla' = d -> ~ In (ATrim d) ls ->
+  eroot (dtype d) p1 <> eroot (dtype d) p2 /\ (forall S, shares_within ls S -> 2 * t <= length S).
+Proof.
+  intros Hrun -> Ha Hc1 Hf1 Ha' Hc2 Hf2 Hd1 Hd2 Hnt.
+  pose proof Ha' as Hsplit. unfold run in Hsplit. apply run_app in Hsplit. destruct Hsplit as [s0 [H0 Hrest]].
+  unfold run in Ha. rewrite Ha in H0. injection H0 as <-.
+  fold (run t sa (AEntry c1 (EGood pk sub p1) :: m)) in Hrest. apply run_cons in Hrest.
+  destruct Hrest as [sa1 [Hst Hm]].
+  assert (Hnm : ~ In (ATrim (c_duty cla)) m).
+  { rewrite Hd1. intro Hin. apply Hnt. apply in_or_app. right. right. apply in_or_app. left. exact Hin. }
+  destruct (at_most_once a sa c1 cla pk sub p1 x1 sa1 m sa' c2 cla' p2 x2) as [Hne Hb]; auto; [congruence|].
+  rewrite Hd1 in Hne. split; [exact Hne|]. intros S HS. apply Hb. intros q Hq.
+  apply in_app_iff in Hq. destruct Hq as [Hq|[<-|[]]].
+  - destruct (run_ent_from _ _ _ _ _ Ha' Hq) as [Hi|[c [pk' [sub' Hin]]]]; [contradiction|].
+    apply (HS c pk' sub'). rewrite app_comm_cons, app_assoc. apply in_or_app. left. exact Hin.
+  - apply (HS c2 pk sub). apply in_or_app. right. right. apply in_or_app. right. left. reflexivity.
+Qed.
+
+Lemma mfire_good s cl e x : mfire s cl e = Some x -> exists pk sub p, e = EGood pk sub p.
+Proof. destruct e as [pk sub p|pk]; [eauto | discriminate]. Qed.
+
+(* End to end, on observable labels only: the threshold subscribers are never called twice for
+   the same (duty, validator, subcommittee) and root without a trim of the duty in between; and
+   if every share index of the trace lies in a set of fewer than 2t values, never twice at all. *)
+Theorem no_double_delivery ls s q1 c1 er1 o1 il1 q2 c2 er2 o2 il2 q3 pk sub g1 g2 d :
+  run t init ls = Some s ->
+  ls = q1 ++ AEnd c1 er1 (Some o1) il1 :: q2 ++ AEnd c2 er2 (Some o2) il2 :: q3 ->
+  In (pk, sub, g1) o1 -> In (pk, sub, g2) o2 ->
+  duty_of ls c1 = Some d -> duty_of ls c2 = Some d -> ~ In (ATrim d) ls ->
+  (forall x y, In x g1 -> In y g2 -> eroot (dtype d) x <> eroot (dtype d) y) /\
+  (forall S, shares_within ls S -> 2 * t <= length S).
+Proof.
+  intros Hrun Els Hi1 Hi2 Hd1 Hd2 Hnt.
+  pose proof Hrun as Hr1. rewrite Els in Hr1.
+  pose proof Hr1 as Hr2. rewrite app_comm_cons, app_assoc in Hr2.
+  set (pre2 := q1 ++ AEnd c1 er1 (Some o1) il1 :: q2) in *.
+  assert (Els2 : ls = pre2 ++ AEnd c2 er2 (Some o2) il2 :: q3).
+  { rewrite Els. unfold pre2. rewrite <- app_assoc. reflexivity. }
+  (* the two calls are different *)
+  assert (Hcne : c1 <> c2).
+  { intros <-. destruct (delivery _ _ _ _ _ _ _ Hr2) as [s2a [cl2 [H2a [Hc2 [Ho2 _]]]]].
+    unfold pre2, run in H2a. apply run_app in H2a. destruct H2a as [s1a [H1a Hq2]].
+    fold (run t s1a (AEnd c1 er1 (Some o1) il1 :: q2)) in Hq2. apply run_cons in Hq2. destruct Hq2 as [s1b [Hst Hq2]].
+    apply step_end in Hst. destruct Hst as [cl [Hc [_ [_ [_ [_ ->]]]]]].
+    destruct (run_closed q2 _ _ c1 (closed cl) Hq2) as [cl' [Hc' Ho']]; [simpl; apply updc_same | reflexivity|].
+    congruence. }
+  destruct (proj1 (delivered_iff_fired _ _ _ _ _ _ _ Hr1 (pk, sub, g1)) Hi1) as [a [e1 [b [sa [cla [Eq1 [Ha [Hca Hfa]]]]]]]].
+  destruct (proj1 (delivered_iff_fired _ _ _ _ _ _ _ Hr2 (pk, sub, g2)) Hi2) as [a' [e2 [b' [sa' [cla' [Eq2 [Ha' [Hca' Hfa']]]]]]]].
+  destruct (mfire_good _ _ _ _ Hfa) as [pk1 [sub1 [p1 ->]]].
+  destruct (mfire_good _ _ _ _ Hfa') as [pk2 [sub2 [p2 ->]]].
+  pose proof (proj1 (mfire_iff _ _ _ _ _ _) Hfa) as [_ [_ Ex1]]. injection Ex1 as <- <- Eg1.
+  pose proof (proj1 (mfire_iff _ _ _ _ _ _) Hfa') as [_ [_ Ex2]]. injection Ex2 as <- <- Eg2.
+  (* duties *)
+  assert (Hda : c_duty cla = d).
+  { pose proof (duty_of_calls _ _ c1 Ha) as E. rewrite Hca in E. simpl in E.
+    assert (E' : duty_of ls c1 = Some (c_duty cla)).
+    { rewrite Els, Eq1, <- app_assoc. apply duty_of_prefix. exact E. }
+    congruence. }
+  assert (Hda' : c_duty cla' = d).
+  { pose proof (duty_of_calls _ _ c2 Ha') as E. rewrite Hca' in E. simpl in E.
+    assert (E' : duty_of ls c2 = Some (c_duty cla')).
+    { rewrite Els2, Eq2, <- app_assoc. apply duty_of_prefix. exact E. }
+    congruence. }
+  assert (Hroots : eroot (dtype d) p1 <> eroot (dtype d) p2 /\ (forall S, shares_within ls S -> 2 * t <= length S)).
+  { assert (Epre2 : pre2 = a ++ AEntry c1 (EGood pk sub p1) :: (b ++ AEnd c1 er1 (Some o1) il1 :: q2)).
+    { unfold pre2. rewrite Eq1, <- app_assoc. reflexivity. }
+    rewrite Eq2 in Epre2. symmetry in Epre2.
+    destruct (split_compare _ _ _ _ _ _ Epre2) as [[_ [E _]]|[[m [Em Eb]]|[m [Em Eb]]]].
+    - injection E as E. contradiction.
+    - (* c1's entry first *)
+      apply (two_fires ls s a c1 pk sub p1 m c2 p2 (b' ++ AEnd c2 er2 (Some o2) il2 :: q3) sa cla (pk, sub, g1) sa' cla' (pk, sub, g2) d); auto.
+      + rewrite Els2, Eq2, Em. repeat (rewrite <- app_assoc; simpl). reflexivity.
+      + rewrite <- Em. exact Ha'.
+    - (* c2's entry first *)
+      assert (Ha2 : run t init (a' ++ AEntry c2 (EGood pk sub p2) :: m) = Some sa) by (rewrite <- Em; exact Ha).
+      destruct (two_fires ls s a' c2 pk sub p2 m c1 p1 (b ++ AEnd c1 er1 (Some o1) il1 :: q2 ++ AEnd c2 er2 (Some o2) il2 :: q3)
+                  sa' cla' (pk, sub, g2) sa cla (pk, sub, g1) d) as [Hne Hb];
+        [exact Hrun | | exact Ha' | exact Hca' | exact Hfa' | exact Ha2 | exact Hca | exact Hfa | exact Hda' | exact Hda | exact Hnt |].
+      + rewrite Els, Eq1, Em. repeat (rewrite <- app_assoc; simpl). reflexivity.
+      + split; [intro E; apply Hne; symmetry; exact E | exact Hb]. }
+  destruct Hroots as [Hne Hb]. split; [|exact Hb].
+  intros x y Hx Hy. rewrite Eg1 in Hx. rewrite Eg2 in Hy.
+  apply group_In in Hx. apply group_In in Hy. rewrite Hda in Hx. rewrite Hda' in Hy.
+  destruct Hx as [_ ->]. destruct Hy as [_ ->]. exact Hne.
+Qed.
+
+(* one call never names a validator twice *)
+Lemma todo_nodup pre : forall s c cl, run t init pre = Some s -> calls s c = Some cl -> NoDup (map epk (c_todo cl)).
+Proof.
+  assert (Hrem : forall e l, NoDup (map epk l) -> NoDup (map epk (remove1 e l))).
+  { intros e l. induction l as [|x l IH]; simpl; intro H; [constructor|].
+    inversion H as [|y ys Hn Hl]; subst. destruct (entry_eqb x e); [exact Hl|].
+    simpl. constructor; [|apply IH; exact Hl].
+    intro Hin. apply Hn. clear -Hin. induction l as [|z l IH]; simpl in *; [contradiction|].
+    destruct (entry_eqb z e); [right; exact Hin|]. simpl in Hin. destruct Hin as [E|Hin]; [left; exact E | right; apply IH; exact Hin]. }
+  induction pre as [|l pre IH] using rev_ind; intros s c cl H Hc.
+  - injection H as <-. discriminate.
+  - apply run_snoc in H. destruct H as [s1 [H1 H2]].
+    destruct (step_call _ _ _ _ _ H2 Hc) as [[e [cl1 [-> [Hc1 ->]]]]|[_ [[Hn [_ [i [d [st [b [-> ->]]]]]]]|[cl1 [Hc1 [_ [_ [_ [_ [_ [_ [Ht _]]]]]]]]]]]].
+    + destruct (mcall_static s1 cl1 e) as [_ [_ [_ [_ [-> _]]]]]. apply Hrem. eapply IH; eauto.
+    + apply step_begin in H2. destruct H2 as [_ [Hnd _]]. unfold new_call. simpl. destruct st; [constructor | exact Hnd | exact Hnd].
+    + rewrite Ht. eapply IH; eauto.
+Qed.
+
+(* ---- one delivery per validator inside one call ---- *)
+Definition opk (x : nat * nat * list partial) : nat := fst (fst x).
+
+Lemma remove1_pk e l : NoDup (map epk l) -> In e l -> ~ In (epk e) (map epk (remove1 e l)).
+Proof.
+  induction l as [|x l IH]; simpl; intros Hn Hin; [contradiction|].
+  inversion Hn as [|y ys Hx Hl]; subst. destruct (entry_eqb x e) eqn:E.
+  - apply entry_eqb_eq in E. subst x. exact Hx.
+  - destruct Hin as [->|Hin]; [rewrite (proj2 (entry_eqb_eq e e) eq_refl) in E; discriminate|].
+    simpl. intros [E'|Hin']; [|apply IH; auto].
+    apply Hx. rewrite E'. apply in_map. exact Hin.
+Qed.
+
+Lemma remove1_incl e l x : In x (remove1 e l) -> In x l.
+Proof.
+  induction l as [|y l IH]; simpl; [tauto|]. destruct (entry_eqb y e); [tauto|].
+  simpl. intros [H|H]; [left; exact H | right; apply IH; exact H].
+Qed.
+
+Lemma out_pks pre : forall s c cl, run t init pre = Some s -> calls s c = Some cl ->
+  NoDup (map opk (c_out cl)) /\ (forall x, In x (c_out cl) -> ~ In (opk x) (map epk (c_todo cl))).
+Proof.
+  induction pre as [|l pre IH] using rev_ind; intros s c cl H Hc.
+  - injection H as <-. discriminate.
+  - apply run_snoc in H. destruct H as [s1 [H1 H2]].
+    destruct (step_call _ _ _ _ _ H2 Hc) as [[e [cl1 [-> [Hc1 ->]]]]|[_ [[Hn [Ho _]]|[cl1 [Hc1 [Ho [_ [_ [_ [_ [_ [Ht _]]]]]]]]]]]].
+    + destruct (IH _ _ _ H1 Hc1) as [Hnd Hdis]. pose proof (todo_nodup _ _ _ _ H1 Hc1) as Htn.
+      apply step_entry in H2. destruct H2 as [cl1' [Hc1' [_ [_ [Hin _]]]]]. rewrite Hc1 in Hc1'. injection Hc1' as <-.
+      rewrite mcall_out. destruct (mcall_static s1 cl1 e) as [_ [_ [_ [_ [-> _]]]]].
+      destruct (mfire s1 cl1 e) as [x|] eqn:Ef; simpl.
+      * destruct (mfire_good _ _ _ _ Ef) as [pk [sub [p ->]]].
+        pose proof (proj1 (mfire_iff _ _ _ _ _ _) Ef) as [_ [_ ->]]. split.
+        -- rewrite map_app. simpl. apply nodup_snoc_gen; [exact Hnd|].
+           intro Hi. apply in_map_iff in Hi. destruct Hi as [y [Ey Hy]].
+           apply (Hdis y Hy). rewrite Ey. unfold opk. simpl.
+           apply in_map_iff. exists (EGood pk sub p). auto.
+        -- intros y Hy. apply in_app_iff in Hy. destruct Hy as [Hy|[<-|[]]].
+           ++ intro Hi. apply (Hdis y Hy). apply in_map_iff in Hi. destruct Hi as [z [Ez Hz]].
+              apply in_map_iff. exists z. split; [exact Ez | eapply remove1_incl; eauto].
+           ++ unfold opk. simpl. apply (remove1_pk (EGood pk sub p)); auto.
+      * rewrite app_nil_r. split; [exact Hnd|]. intros y Hy Hi. apply (Hdis y Hy).
+        apply in_map_iff in Hi. destruct Hi as [z [Ez Hz]]. apply in_map_iff. exists z. split; [exact Ez | eapply remove1_incl; eauto].
+    + rewrite Ho. split; [constructor | contradiction].
+    + rewrite Ho, Ht. eapply IH; eauto.
+Qed.
+
+Theorem delivery_one_per_validator pre c er o il post s :
+  run t init (pre ++ AEnd c er (Some o) il :: post) = Some s -> NoDup (map opk o).
+Proof.
+  intro H. destruct (delivery _ _ _ _ _ _ _ H) as [s1 [cl [H1 [Hc [_ [_ [Hi [_ [Hl _]]]]]]]]]. simpl in Hi, Hl.
+  destruct (out_pks _ _ _ _ H1 Hc) as [Hnd _].
+  assert (Hdue : NoDup (c_out cl)) by (eapply NoDup_map_inv; exact Hnd).
+  assert (Ho : NoDup o).
+  { apply (NoDup_incl_NoDup Hdue); [lia | intros x Hx; apply Hi; exact Hx]. }
+  assert (Hp : Permutation (c_out cl) o).
+  { apply NoDup_Permutation; auto. intro x. symmetry. apply Hi. }
+  eapply Permutation_NoDup; [apply Permutation_map; exact Hp | exact Hnd].
+Qed.
+
+(* ---- a stored root group of size >= t has fired (since the last trim of its duty) ---- *)
+Record KInv (s : state) : Prop := {
+  k_kbd : forall k, exempt_ty (dtype (kduty k)) = false -> ent s k <> [] -> In k (kbd s);
+  k_st : forall c cl, calls s c = Some cl -> status_eqb (c_st cl) Exempt = exempt_ty (dtype (c_duty cl))
+}.
+
+Lemma kinv_init : KInv init.
+Proof. split; simpl; [intros k _ H; contradiction | discriminate]. Qed.
+
+Lemma mstore_kbd s cl e k : In k (kbd s) -> In k (s_kbd (mstore s cl e)).
+Proof.
+  intro H. destruct e as [pk sub p|pk]; simpl; [|exact H].
+  destruct (classify p (ent s (ekey_of cl pk sub))); simpl; try exact H.
+  destruct (negb (ex_of cl) && is_nil (ent s (ekey_of cl pk sub))); [apply in_or_app; left; exact H | exact H].
+Qed.
+
+Lemma step_kinv s l s' : KInv s -> lab_status_ok l = true -> step t s l = Some s' -> KInv s'.
+Proof.
+  intros [Hk Hs] Hl H. destruct l as [c i d st b|c e|c er out il|d].
+  - apply step_begin in H. destruct H as [_ [_ ->]]. split; simpl; [exact Hk|].
+    intros c' cl'. unfold updc. destruct (c' =? c); [|apply Hs].
+    intro E. injection E as <-. simpl in *. apply eqb_prop in Hl. destruct st; exact Hl.
+  - apply step_entry in H. destruct H as [cl [Hc [_ [_ [_ ->]]]]]. split; simpl.
+    + intros k Hty Hne.
+      destruct (mstore_ent s cl e k) as [E|[pk [sub [p [-> [Ecl Hcases]]]]]].
+      * apply mstore_kbd. apply Hk; [exact Hty | rewrite <- E; exact Hne].
+      * assert (Hkey : k = ekey_of cl pk sub -> In k (s_kbd (mstore s cl (EGood pk sub p)))).
+        { intros ->. simpl. rewrite Ecl. simpl.
+          assert (Hex : ex_of cl = false).
+          { unfold ex_of. rewrite (Hs _ _ Hc). exact Hty. }
+          rewrite Hex. simpl. destruct (ent s (ekey_of cl pk sub)) eqn:Ee; simpl.
+          - apply in_or_app. right. left. reflexivity.
+          - apply Hk; [exact Hty | rewrite Ee; discriminate]. }
+        destruct Hcases as [[-> _]|[[_ E]|[-> _]]]; [apply Hkey; reflexivity | | apply Hkey; reflexivity].
+        apply mstore_kbd. apply Hk; [exact Hty|]. intro E0. rewrite E, E0 in Hne. apply Hne. reflexivity.
+    + intros c' cl'. unfold updc. destruct (c' =? c); [|apply Hs].
+      intro E. injection E as <-. destruct (mcall_static s cl e) as [_ [_ [-> [-> _]]]]. apply (Hs _ _ Hc).
+  - apply step_end in H. destruct H as [cl [Hc [_ [_ [_ [_ ->]]]]]]. split; simpl; [exact Hk|].
+    intros c' cl'. unfold updc. destruct (c' =? c); [|apply Hs].
+    intro E. injection E as <-. simpl. apply (Hs _ _ Hc).
+  - apply step_trim in H. subst s'. split; simpl; [|exact Hs].
+    intros k Hty Hne. apply filter_In.
+    destruct (duty_eqb (kduty k) d) eqn:Ed; simpl in *.
+    + destruct (memk k (kbd s)) eqn:Em; [exfalso; apply Hne; reflexivity|].
+      exfalso. assert (In k (kbd s)) by (apply Hk; auto). apply memk_In in H. congruence.
+    + split; [apply Hk; auto | reflexivity].
+Qed.
+
+Lemma run_kinv ls : forall s s', KInv s -> status_ok ls = true -> run t s ls = Some s' -> KInv s'.
+Proof.
+  induction ls as [|l r IH]; intros s s' I Hs H; [injection H as <-; exact I|].
+  simpl in Hs. apply andb_true_iff in Hs. destruct Hs as [Hs1 Hs2].
+  apply run_cons in H. destruct H as [s1 [H1 H2]]. eapply IH; [eapply step_kinv; eauto | exact Hs2 | exact H2].
+Qed.
+
+(* E *)
+Theorem stored_threshold_fired pre : forall s k r, 1 <= t -> run t init pre = Some s -> status_ok pre = true ->
+  t <= cnt (dtype (kduty k)) r (ent s k) ->
+  exists p1 c pk sub p p2 s0 cl x,
+    pre = p1 ++ AEntry c (EGood pk sub p) :: p2 /\ run t init p1 = Some s0 /\ calls s0 c = Some cl /\
+    ekey_of cl pk sub = k /\ eroot (dtype (kduty k)) p = r /\ mfire s0 cl (EGood pk sub p) = Some x /\
+    ~ In (ATrim (kduty k)) p2.
+Proof.
+  induction pre as [|l pre IH] using rev_ind; intros s k r Ht H Hs Hc.
+  - injection H as <-. simpl in Hc. unfold cnt in Hc. simpl in Hc. lia.
+  - apply run_snoc in H. destruct H as [s1 [H1 H2]].
+    unfold status_ok in Hs. rewrite forallb_app in Hs. apply andb_true_iff in Hs. destruct Hs as [Hs1 Hs2].
+    simpl in Hs2. rewrite andb_true_r in Hs2. set (ty := dtype (kduty k)) in *.
+    destruct (le_lt_dec t (cnt ty r (ent s1 k))) as [Hold|Hold].
+    + destruct (IH _ _ _ Ht H1 Hs1 Hold) as [p1 [c [pk [sub [p [p2 [s0 [cl [x [-> [Hr0 [Hc0 [Hk [Hr [Hf Hnt]]]]]]]]]]]]]]].
+      exists p1, c, pk, sub, p, (p2 ++ [l]), s0, cl, x. repeat split; auto.
+      * rewrite <- app_assoc. reflexivity.
+      * intro Hin. apply in_app_iff in Hin. destruct Hin as [Hin|[->|[]]]; [contradiction|].
+        assert (I1 : KInv s1) by (eapply run_kinv; [apply kinv_init | exact Hs1 | exact H1]).
+        simpl in Hs2. apply negb_true_iff in Hs2.
+        assert (Hin : In k (kbd s1)).
+        { apply (k_kbd _ I1); [exact Hs2|]. intro E. rewrite E in Hold. unfold cnt in Hold. simpl in Hold. lia. }
+        apply step_trim in H2. subst s. simpl in Hc.
+        rewrite (proj2 (duty_eqb_eq _ _) eq_refl), (proj2 (memk_In _ _) Hin) in Hc. unfold cnt in Hc. simpl in Hc. lia.
+    + (* the last step raised the count to t: it is a firing entry *)
+      destruct l as [c i d st b|c e|c er out il|d].
+      * apply step_begin in H2. destruct H2 as [_ [_ ->]]. simpl in Hc. lia.
+      * apply step_entry in H2. destruct H2 as [cl [Hcl [_ [_ [_ ->]]]]]. simpl in Hc.
+        destruct (mstore_ent s1 cl e k) as [E|[pk [sub [p [-> [Ecl [[-> E]|[[_ E]|[_ [Hlt E]]]]]]]]]]; rewrite E in Hc.
+        -- lia.
+        -- rewrite cnt_app, cnt_one in Hc. subst ty.
+           change (dtype (kduty (ekey_of cl pk sub))) with (dtype (c_duty cl)) in *.
+           destruct (Nat.eqb_spec (eroot (dtype (c_duty cl)) p) r) as [Er|Er]; [|lia].
+           assert (Hf : exists x, mfire s1 cl (EGood pk sub p) = Some x).
+           { eexists. apply mfire_iff. cbv zeta. split; [exact Ecl|]. split; [|reflexivity].
+             rewrite group_cnt, cnt_app, cnt_one, Er, Nat.eqb_refl. lia. }
+           destruct Hf as [x Hf].
+           exists pre, c, pk, sub, p, [], s1, cl, x. repeat split; auto.
+        -- pose proof (cnt_filter_le ty r (fun q => negb (share q =? share p)) (ent s1 k)). lia.
+        -- pose proof (cnt_le ty r (filter (fun q => negb (share q =? share p)) (ent s1 k ++ [p]))) as H3.
+           pose proof (filter_length_le (fun q => negb (share q =? share p)) (ent s1 k ++ [p])). lia.
+      * apply step_end in H2. destruct H2 as [cl [_ [_ [_ [_ [_ ->]]]]]]. simpl in Hc. lia.
+      * apply step_trim in H2. subst s. simpl in Hc.
+        destruct (duty_eqb (kduty k) d && memk k (kbd s1)); [unfold cnt in Hc; simpl in Hc; lia | lia].
+Qed.
+
+(* ---- duplicates and equivocations ---- *)
+Lemma NoDup_map_inj {A B} (f : A -> B) l a b : NoDup (map f l) -> In a l -> In b l -> f a = f b -> a = b.
+Proof.
+  induction l as [|x l IH]; simpl; intros Hn Ha Hb E; [contradiction|].
+  inversion Hn as [|y ys Hx Hl]; subst.
+  destruct Ha as [->|Ha], Hb as [->|Hb]; auto.
+  - exfalso. apply Hx. rewrite E. apply in_map. exact Hb.
+  - exfalso. apply Hx. rewrite <- E. apply in_map. exact Ha.
+Qed.
+
+Lemma classify_spec p l : NoDup (map share l) ->
+  (classify p l = VDup <-> exists q, In q l /\ share q = share p /\ pid q = pid p) /\
+  (classify p l = VMismatch <-> exists q, In q l /\ share q = share p /\ pid q <> pid p) /\
+  (classify p l = VNew <-> forall q, In q l -> share q <> share p).
+Proof.
+  intro Hn. unfold classify. destruct (find_share (share p) l) as [q|] eqn:E.
+  - apply find_share_some in E. destruct E as [Hq Hs].
+    assert (Hu : forall q', In q' l -> share q' = share p -> q' = q).
+    { intros q' Hq' Hs'. eapply NoDup_map_inj; eauto. congruence. }
+    destruct (Nat.eqb_spec (pid q) (pid p)) as [Ep|Ep]; repeat split; try discriminate; eauto.
+    + intros [q' [Hq' [Hs' Hp']]]. apply Hu in Hq'; [subst; contradiction | exact Hs'].
+    + intro H. exfalso. apply (H q Hq Hs).
+    + intros [q' [Hq' [Hs' Hp']]]. apply Hu in Hq'; [subst; contradiction | exact Hs'].
+    + intro H. exfalso. apply (H q Hq Hs).
+  - apply find_share_none in E. repeat split; try discriminate.
+    + intros [q [Hq [Hs _]]]. exfalso. apply E. rewrite <- Hs. apply in_map. exact Hq.
+    + intros [q [Hq [Hs _]]]. exfalso. apply E. rewrite <- Hs. apply in_map. exact Hq.
+    + intros _ q Hq Hs. apply E. rewrite <- Hs. apply in_map. exact Hq.
+Qed.
+
+(* F: a partial signature that is already stored (same share, same data) changes nothing *)
+Theorem dup_ignored s c pk sub p s' cl :
+  step t s (AEntry c (EGood pk sub p)) = Some s' -> calls s c = Some cl ->
+  classify p (ent s (ekey_of cl pk sub)) = VDup ->
+  ent s' = ent s /\ kbd s' = kbd s /\ exm s' = exm s /\
+  calls s' = updc (calls s) c (Some (took cl (EGood pk sub p))).
+Proof.
+  intros H Hc Ecl. apply step_entry in H. destruct H as [cl' [Hc' [_ [_ [_ ->]]]]].
+  rewrite Hc in Hc'. injection Hc' as <-. simpl. rewrite Ecl. simpl. auto.
+Qed.
+
+(* G: same share, different data: nothing stored changes, the call is marked as failed *)
+Theorem reject_preserves_state s c pk sub p s' cl :
+  step t s (AEntry c (EGood pk sub p)) = Some s' -> calls s c = Some cl ->
+  classify p (ent s (ekey_of cl pk sub)) = VMismatch ->
+  ent s' = ent s /\ kbd s' = kbd s /\ exm s' = exm s /\
+  calls s' = updc (calls s) c (Some (set_mis false (took cl (EGood pk sub p)))).
+Proof.
+  intros H Hc Ecl. apply step_entry in H. destruct H as [cl' [Hc' [_ [_ [_ ->]]]]].
+  rewrite Hc in Hc'. injection Hc' as <-. simpl. rewrite Ecl. simpl. auto.
+Qed.
+
+Lemma mcall_mis s cl e : c_mis cl = true -> c_mis (mcall s cl e) = true.
+Proof.
+  intro H. destruct e as [pk sub p|pk]; simpl; [|exact H].
+  destruct (classify p (ent s (ekey_of cl pk sub))); simpl; auto.
+Qed.
+
+Lemma run_mis ls : forall s s' c cl, run t s ls = Some s' -> calls s c = Some cl -> c_mis cl = true ->
+  exists cl', calls s' c = Some cl' /\ c_mis cl' = true.
+Proof.
+  induction ls as [|l ls IH]; intros s s' c cl H Hc Hm; [injection H as <-; eauto|].
+  apply run_cons in H. destruct H as [s1 [H1 H2]].
+  destruct (step_calls_mono _ _ _ _ _ H1 Hc) as [cl1 Hc1].
+  assert (Hm1 : c_mis cl1 = true).
+  { destruct (step_call _ _ _ _ _ H1 Hc1) as [[e [cl0 [_ [Hc0 ->]]]]|[_ [[Hn _]|[cl0 [Hc0 [_ [_ [_ [_ [Hmm _]]]]]]]]]].
+    - rewrite Hc in Hc0. injection Hc0 as <-. apply mcall_mis. exact Hm.
+    - congruence.
+    - rewrite Hc in Hc0. injection Hc0 as <-. congruence. }
+  eapply IH; eauto.
+Qed.
+
+(* ... and the call that contained it returns an error *)
+Theorem reject_reported p1 c pk sub p p2 er out il p3 s s0 cl :
+  run t init (p1 ++ AEntry c (EGood pk sub p) :: p2 ++ AEnd c er out il :: p3) = Some s ->
+  run t init p1 = Some s0 -> calls s0 c = Some cl ->
+  classify p (ent s0 (ekey_of cl pk sub)) = VMismatch -> er <> ENone.
+Proof.
+  intros H H0 Hc Ecl.
+  pose proof H as H'. rewrite app_comm_cons, app_assoc in H'.
+  destruct (delivery _ _ _ _ _ _ _ H') as [s2 [cl2 [H2 [Hc2 [_ [_ [_ [_ [_ [He _]]]]]]]]]].
+  unfold run in H2. apply run_app in H2. destruct H2 as [s0' [H0' H2]].
+  unfold run in H0. rewrite H0 in H0'. injection H0' as <-.
+  fold (run t s0 (AEntry c (EGood pk sub p) :: p2)) in H2. apply run_cons in H2. destruct H2 as [s1 [Hst H2]].
+  apply step_entry in Hst. destruct Hst as [cl' [Hc' [_ [_ [_ ->]]]]]. rewrite Hc in Hc'. injection Hc' as <-.
+  destruct (run_mis p2 _ _ c (mcall s0 cl (EGood pk sub p)) H2) as [cl3 [Hc3 Hm3]].
+  - simpl. apply updc_same.
+  - simpl. rewrite Ecl. reflexivity.
+  - rewrite Hc2 in Hc3. injection Hc3 as <-. intro E. apply He in E. destruct E as [E _]. congruence.
+Qed.
+
+(* I: a set for an expired duty is dropped: no entry of it is processed, the threshold subscribers
+   are not called, nil is returned (and the internal subscribers still run for StoreInternal) *)
+Lemma expired_rest ls : forall s s' c cl i, run t s ls = Some s' -> calls s c = Some cl ->
+  c_todo cl = [] -> c_out cl = [] -> c_mis cl = false -> c_oth cl = false -> c_int cl = i -> c_abort cl = false ->
+  (forall e, ~ In (AEntry c e) ls) /\
+  (forall er out il, In (AEnd c er out il) ls -> er = ENone /\ out = None /\ il = i).
+Proof.
+  induction ls as [|l ls IH]; intros s s' c cl i H Hc Ht Ho Hm Hoth Hi Hab; [split; [intros e [] | intros er out il []]|].
+  apply run_cons in H. destruct H as [s1 [H1 H2]].
+  assert (Hnot : forall e, l <> AEntry c e).
+  { intros e ->. apply step_entry in H1. destruct H1 as [cl' [Hc' [_ [_ [Hin _]]]]].
+    rewrite Hc in Hc'. injection Hc' as <-. rewrite Ht in Hin. contradiction. }
+  destruct (step_calls_mono _ _ _ _ _ H1 Hc) as [cl1 Hc1].
+  destruct (step_call _ _ _ _ _ H1 Hc1) as [[e [cl0 [-> _]]]|[_ [[Hn _]|[cl0 [Hc0 [Eo [_ [_ [Ei [Em [Eoth [Et Ea]]]]]]]]]]]].
+  - exfalso. eapply Hnot; eauto.
+  - congruence.
+  - rewrite Hc in Hc0. injection Hc0 as <-.
+    destruct (IH _ _ c cl1 i H2 Hc1) as [IH1 IH2]; try congruence.
+    split.
+    + intros e [->|Hin]; [eapply Hnot; eauto | eapply IH1; eauto].
+    + intros er out il [->|Hin]; [|eapply IH2; eauto].
+      apply step_end in H1. destruct H1 as [cl' [Hc' [_ [Hok [He [Hil _]]]]]].
+      rewrite Hc in Hc'. injection Hc' as <-. destruct (Hok Hab) as [_ Hout].
+      rewrite Ho in Hout. assert (out = None) by (destruct out; [simpl in Hout; discriminate | reflexivity]).
+      assert (er = ENone) by (destruct er; simpl in He; congruence).
+      subst er out. rewrite Hil, Hi. simpl. rewrite andb_true_r. auto.
+Qed.
+
+Theorem expired_dropped p1 c i d b p2 s :
+  run t init (p1 ++ ABegin c i d Expired b :: p2) = Some s ->
+  (forall e, ~ In (AEntry c e) p2) /\
+  (forall er out il, In (AEnd c er out il) p2 -> er = ENone /\ out = None /\ il = i) /\
+  (exists s0 s1, run t init p1 = Some s0 /\ step t s0 (ABegin c i d Expired b) = Some s1 /\
+                 ent s1 = ent s0 /\ kbd s1 = kbd s0 /\ exm s1 = exm s0).
+Proof.
+  intro H. unfold run in H. apply run_app in H. destruct H as [s0 [H0 H]].
+  fold (run t s0 (ABegin c i d Expired b :: p2)) in H. apply run_cons in H. destruct H as [s1 [Hst H2]].
+  pose proof Hst as Hst'. apply step_begin in Hst. destruct Hst as [_ [_ ->]].
+  destruct (expired_rest p2 _ _ c (new_call i d Expired b) i H2) as [A B]; try reflexivity.
+  - simpl. apply updc_same.
+  - split; [exact A|]. split; [exact B|]. exists s0. eexists. split; [exact H0|]. split; [exact Hst'|]. auto.
+Qed.
+
+(* ---- other validators ---- *)
+Record XInv (s : state) : Prop := { x_pk : forall ek k0, In k0 (exm s ek) -> kpk k0 = snd (fst ek) }.
+
+Lemma step_xinv s l s' : XInv s -> step t s l = Some s' -> XInv s'.
+Proof.
+  intros [Hx] H. destruct l as [c i d st b|c e|c er out il|d].
+  - apply step_begin in H. destruct H as [_ [_ ->]]. split. exact Hx.
+  - apply step_entry in H. destruct H as [cl [_ [_ [_ [_ ->]]]]]. split. simpl.
+    destruct e as [pk sub p|pk]; simpl; [|exact Hx].
+    destruct (classify p (ent s (ekey_of cl pk sub))); simpl; try exact Hx.
+    destruct (ex_of cl); simpl; [|exact Hx].
+    unfold track. set (ek := (share p, kpk (ekey_of cl pk sub), dtype (kduty (ekey_of cl pk sub)))).
+    assert (Hst : forall k0, In k0 (exm s ek ++ [ekey_of cl pk sub]) -> kpk k0 = snd (fst ek)).
+    { intros k0 Hin. apply in_app_iff in Hin. destruct Hin as [Hin|[<-|[]]]; [apply Hx; exact Hin | reflexivity]. }
+    destruct (max_exempt <? length (exm s ek ++ [ekey_of cl pk sub])).
+    + destruct (exm s ek ++ [ekey_of cl pk sub]) as [|k0 rest] eqn:E; simpl; [exact Hx|].
+      intros ek' k1. unfold updx. destruct (ekey_eqb ek' ek) eqn:Ee; [|apply Hx].
+      apply ekey_eqb_eq in Ee. subst ek'. intro Hin. apply Hst. right. exact Hin.
+    + simpl. intros ek' k1. unfold updx. destruct (ekey_eqb ek' ek) eqn:Ee; [|apply Hx].
+      apply ekey_eqb_eq in Ee. subst ek'. apply Hst.
+  - apply step_end in H. destruct H as [cl [_ [_ [_ [_ [_ ->]]]]]]. split. exact Hx.
+  - apply step_trim in H. subst s'. split. exact Hx.
+Qed.
+
+Lemma run_xinv ls : forall s s', XInv s -> run t s ls = Some s' -> XInv s'.
+Proof.
+  induction ls as [|l r IH]; intros s s' I H; [injection H as <-; exact I|].
+  apply run_cons in H. destruct H as [s1 [H1 H2]]. eapply IH; [eapply step_xinv; eauto | exact H2].
+Qed.
+
+Lemma xinv_init : XInv init.
+Proof. split. simpl. intros _ k0 []. Qed.
+
+(* H: an entry for validator pk' leaves every key of any other validator untouched, so it can
+   neither cause nor prevent a firing for them (mfire only reads the entry of its own key) *)
+Theorem other_validator_untouched pre s c e s' k :
+  run t init pre = Some s -> step t s (AEntry c e) = Some s' -> kpk k <> epk e -> ent s' k = ent s k.
+Proof.
+  intros Hr H Hne. assert (X : XInv s) by (eapply run_xinv; [apply xinv_init | exact Hr]). destruct X as [Hx].
+  apply step_entry in H. destruct H as [cl [_ [_ [_ [_ ->]]]]]. simpl.
+  destruct e as [pk sub p|pk]; simpl in *; [|reflexivity].
+  destruct (classify p (ent s (ekey_of cl pk sub))); simpl; try reflexivity.
+  assert (Hk : k <> ekey_of cl pk sub) by (intros ->; apply Hne; reflexivity).
+  destruct (ex_of cl); simpl; [|apply upd_other; exact Hk].
+  unfold track. set (ek := (share p, kpk (ekey_of cl pk sub), dtype (kduty (ekey_of cl pk sub)))).
+  destruct (max_exempt <? length (exm s ek ++ [ekey_of cl pk sub])); simpl; [|apply upd_other; exact Hk].
+  destruct (exm s ek ++ [ekey_of cl pk sub]) as [|k0 rest] eqn:E; simpl; [apply upd_other; exact Hk|].
+  assert (Hk0 : kpk k0 = pk).
+  { assert (Hin : In k0 (exm s ek ++ [ekey_of cl pk sub])) by (rewrite E; left; reflexivity).
+    apply in_app_iff in Hin. destruct Hin as [Hin|[<-|[]]]; [apply Hx in Hin; exact Hin | reflexivity]. }
+  unfold evict. simpl. destruct (t <=? length (upd (ent s) (ekey_of cl pk sub) (ent s (ekey_of cl pk sub) ++ [p]) k0));
+    [apply upd_other; exact Hk|].
+  rewrite upd_other; [apply upd_other; exact Hk | intros ->; apply Hne; exact Hk0].
+Qed.
+
+Theorem mfire_reads_own_key s s' cl pk sub p :
+  ent s (ekey_of cl pk sub) = ent s' (ekey_of cl pk sub) ->
+  mfire s cl (EGood pk sub p) = mfire s' cl (EGood pk sub p).
+Proof.
+  intro E. destruct (mfire s cl (EGood pk sub p)) as [x|] eqn:E1.
+  - symmetry. apply mfire_iff. apply mfire_iff in E1. cbv zeta in *. rewrite <- E. exact E1.
+  - destruct (mfire s' cl (EGood pk sub p)) as [x|] eqn:E2; [|reflexivity].
+    apply mfire_iff in E2. cbv zeta in E2. rewrite <- E in E2. apply mfire_iff in E2. congruence.
+Qed.
+
+(* ---------------------------------------------------------------- Part C *)
+
+Record Inv (s : state) (g : ghost) : Prop := {
+  i_ent : forall k, ent s k = acc g k;
+  i_calls : forall c, calls s c = gcalls g c;
+  i_exm : forall ek, length (exm s ek) = gx g ek
+}.
+
+Lemma inv_init : Inv init ginit.
+Proof. split; reflexivity. Qed.
+
+Lemma mfire_fire_of s a cl pk sub p : (forall k, ent s k = a k) ->
+  mfire s cl (EGood pk sub p) = fire_of t a (c_duty cl) (EGood pk sub p).
+Proof.
+  intro Ha. unfold fire_of. rewrite <- (Ha (c_duty cl, pk, sub)).
+  change (c_duty cl, pk, sub) with (ekey_of cl pk sub).
+  destruct (mfire s cl (EGood pk sub p)) as [x|] eqn:E.
+  - apply mfire_iff in E. cbv zeta in E. destruct E as [-> [Hl ->]].
+    apply Nat.eqb_eq in Hl. rewrite Hl. reflexivity.
+  - destruct (classify p (ent s (ekey_of cl pk sub))) eqn:Ecl; try reflexivity.
+    destruct (Nat.eqb_spec (length (group (dtype (c_duty cl)) p (ent s (ekey_of cl pk sub) ++ [p]))) t) as [Hl|Hl]; [|reflexivity].
+    assert (H : mfire s cl (EGood pk sub p) = Some (pk, sub, group (dtype (c_duty cl)) p (ent s (ekey_of cl pk sub) ++ [p]))).
+    { apply mfire_iff. cbv zeta. auto. }
+    congruence.
+Qed.
+
+Lemma track_noevict en ex k sh :
+  length (ex (sh, kpk k, dtype (kduty k))) < max_exempt ->
+  track t false en ex k sh = (en, updx ex (sh, kpk k, dtype (kduty k)) (ex (sh, kpk k, dtype (kduty k)) ++ [k])).
+Proof.
+  intro H. unfold track.
+  destruct (max_exempt <? length (ex (sh, kpk k, dtype (kduty k)) ++ [k])) eqn:E; [|reflexivity].
+  apply Nat.ltb_lt in E. rewrite app_length in E. simpl in E. lia.
+Qed.
+
+Lemma store_new_noevict s ex k p :
+  (ex = true -> length (exm s (share p, kpk k, dtype (kduty k))) < max_exempt) ->
+  store_new t false false s ex k p =
+  Sd (upd (ent s) k (ent s k ++ [p]))
+     (if negb ex && is_nil (ent s k) then kbd s ++ [k] else kbd s)
+     (if ex then updx (exm s) (share p, kpk k, dtype (kduty k)) (exm s (share p, kpk k, dtype (kduty k)) ++ [k]) else exm s)
+     (thresh t (dtype (kduty k)) (ent s k ++ [p])).
+Proof.
+  intro H. unfold store_new. destruct ex.
+  - rewrite track_noevict by auto. cbn [fst snd]. rewrite upd_same. reflexivity.
+  - cbn [fst snd]. rewrite upd_same. reflexivity.
+Qed.
+
+Definition entry_evict_free (g : ghost) (cl : call) (e : entry) : Prop :=
+  match e with
+  | EGood pk sub p =>
+      match classify p (acc g (c_duty cl, pk, sub)), c_st cl with
+      | VNew, Exempt => gx g (share p, pk, dtype (c_duty cl)) <? max_exempt = true
+      | _, _ => True
+      end
+  | EBad _ => True
+  end.
+
+Lemma entry_sound s g cl e : Inv s g -> entry_evict_free g cl e ->
+  (forall k, s_ent (mstore s cl e) k = acc_entry (acc g) (c_duty cl) e k) /\
+  mcall s cl e = call_entry t (acc g) cl e /\
+  (forall ek, length (s_exm (mstore s cl e) ek) = gx_entry (acc g) (gx g) cl e ek).
+Proof.
+  intros [Ie Ic Ix] Hev. destruct e as [pk sub p|pk]; [|repeat split; auto].
+  pose proof (mfire_fire_of s (acc g) cl pk sub p Ie) as Hfire.
+  unfold mstore, mcall, call_entry, acc_entry, gx_entry, entry_evict_free in *.
+  unfold ekey_of in *. rewrite (Ie (c_duty cl, pk, sub)) in *.
+  destruct (classify p (acc g (c_duty cl, pk, sub))) eqn:Ecl; try (repeat split; auto; fail).
+  rewrite store_new_noevict.
+  - cbn [s_ent s_exm]. split; [|split].
+    + intro k. unfold upd. destruct (key_eqb k (c_duty cl, pk, sub)); rewrite ?Ie; reflexivity.
+    + rewrite Hfire. reflexivity.
+    + intro ek. unfold ex_of. destruct (c_st cl); cbn [status_eqb]; try apply Ix.
+      unfold updx. change (kpk (c_duty cl, pk, sub)) with pk. change (dtype (kduty (c_duty cl, pk, sub))) with (dtype (c_duty cl)).
+      destruct (ekey_eqb ek (share p, pk, dtype (c_duty cl))) eqn:Ee; [|apply Ix].
+      apply ekey_eqb_eq in Ee. subst ek. rewrite app_length, Ix. simpl. lia.
+  - unfold ex_of. intro Hex. apply status_eqb_eq in Hex. rewrite Hex in Hev.
+    change (kpk (c_duty cl, pk, sub)) with pk. change (dtype (kduty (c_duty cl, pk, sub))) with (dtype (c_duty cl)).
+    rewrite Ix. apply Nat.ltb_lt. exact Hev.
+Qed.
+
+Lemma step_sound s g l s' :
+  Inv s g -> MInv s -> KInv s -> lab_status_ok l = true -> evict_free g l = true ->
+  step t s l = Some s' -> check g l = true /\ Inv s' (gstep t g l).
+Proof.
+  intros I M K Hl Hev H. pose proof I as [Ie Ic Ix]. destruct l as [c i d st b|c e|c er out il|d].
+  - unfold step, step_gen in H. simpl. rewrite Ic in H. destruct (gcalls g c) eqn:Eg; [discriminate|].
+    destruct (nodupb (map epk b)) eqn:En; [|discriminate]. injection H as <-.
+    split; [reflexivity|]. split; simpl; auto.
+    intro c'. unfold updc. destruct (c' =? c); [reflexivity | apply Ic].
+  - apply step_entry in H. destruct H as [cl [Hc [Ho [Hab [Hin ->]]]]].
+    assert (Hlive : live g c e = Some cl).
+    { unfold live. rewrite <- Ic, Hc, Ho. simpl. rewrite (proj2 (mem_entry_In _ _) Hin). reflexivity. }
+    assert (Hef : entry_evict_free g cl e).
+    { unfold entry_evict_free. destruct e as [pk sub p|pk]; [|exact Logic.I]. cbn [evict_free] in Hev. rewrite Hlive in Hev.
+      destruct (classify p (acc g (c_duty cl, pk, sub))); auto. destruct (c_st cl); auto. }
+    destruct (entry_sound s g cl e I Hef) as [E1 [E2 E3]].
+    cbn [check gstep]. rewrite Hlive. split; [reflexivity|].
+    split; cbn [ent calls exm acc gcalls gx]; auto.
+    intro c'. unfold updc. destruct (c' =? c); [rewrite E2; reflexivity | apply Ic].
+  - unfold step, step_gen in H. simpl. rewrite Ic in H. destruct (gcalls g c) as [cl|] eqn:Eg; [|discriminate].
+    assert (Hab : c_abort cl = false) by (apply (m_noab _ M c); rewrite Ic; exact Eg).
+    rewrite Hab in H.
+    destruct (c_open cl && (is_nil (c_todo cl) && out_ok (c_out cl) out) && err_ok cl er && Bool.eqb il (c_int cl && is_enone er)) eqn:E;
+      [|discriminate].
+    injection H as <-. split.
+    + rewrite <- E. rewrite !andb_assoc. reflexivity.
+    + split; simpl; auto. intro c'. unfold updc. destruct (c' =? c); [reflexivity | apply Ic].
+  - apply step_trim in H. subst s'. split; [reflexivity|]. split; simpl; auto.
+    intro k. rewrite <- Ie. destruct (duty_eqb (kduty k) d) eqn:Ed; simpl; [|reflexivity].
+    destruct (memk k (kbd s)) eqn:Em; [reflexivity|].
+    destruct (ent s k) eqn:Ek; [reflexivity|]. exfalso.
+    apply duty_eqb_eq in Ed. simpl in Hl. apply negb_true_iff in Hl.
+    assert (In k (kbd s)). { apply (k_kbd _ K); [rewrite Ed; exact Hl | rewrite Ek; discriminate]. }
+    apply memk_In in H. congruence.
+Qed.
+
+Lemma run_monitor_from ls : forall s g s',
+  Inv s g -> MInv s -> KInv s -> status_ok ls = true -> no_evict_from t g ls = true ->
+  run t s ls = Some s' -> monitor_from t g ls = true.
+Proof.
+  induction ls as [|l r IH]; intros s g s' I M K Hs He H; [reflexivity|].
+  simpl in Hs, He. apply andb_true_iff in Hs. destruct Hs as [Hs1 Hs2].
+  apply andb_true_iff in He. destruct He as [He1 He2].
+  apply run_cons in H. destruct H as [s1 [H1 H2]].
+  destruct (step_sound _ _ _ _ I M K Hs1 He1 H1) as [Hc I1].
+  simpl. rewrite Hc. simpl.
+  eapply IH; [exact I1 | eapply step_minv; eauto | eapply step_kinv; eauto | exact Hs2 | exact He2 | exact H2].
+Qed.
+
+(* Main theorem: in an environment that honours the deadliner contract and never makes the per-share
+   cap of exempt duties evict, every trace of the model satisfies the monitor that transcribes the
+   property (an entry fires iff it is the t-th accepted distinct share over its root). *)
+Theorem run_monitor ls s :
+  run t init ls = Some s -> status_ok ls = true -> no_evict t ls = true -> monitor t ls = true.
+Proof.
+  intros H Hs He. eapply run_monitor_from; eauto using inv_init, minv_init, kinv_init.
+Qed.
+
+(* the group a firing entry hands over *)
+Theorem fired_group pre s cl pk sub p g :
+  run t init pre = Some s -> mfire s cl (EGood pk sub p) = Some (pk, sub, g) ->
+  length g = t /\ NoDup (map share g) /\ In p g /\
+  (forall q, In q g <-> In q (ent s (ekey_of cl pk sub) ++ [p]) /\ eroot (dtype (c_duty cl)) q = eroot (dtype (c_duty cl)) p) /\
+  (forall q, In q (ent s (ekey_of cl pk sub)) -> share q <> share p).
+Proof.
+  intros Hr Hf. apply mfire_iff in Hf. destruct Hf as [Ecl [Hl Ex]]. injection Ex as ->.
+  pose proof (run_minv pre init s minv_init Hr) as M.
+  pose proof (classify_new _ _ Ecl) as Hn.
+  split; [exact Hl|]. split; [apply group_nodup, nodup_snoc; [apply (m_nodup _ M) | exact Hn]|].
+  split; [apply group_self|]. split; [intro q; apply group_In|].
+  intros q Hq E. apply Hn. rewrite <- E. apply in_map. exact Hq.
+Qed.
+
+End Facts.
+
+(* ---------------------------------------------------------------- Part D *)
+
+Definition w_duty : duty := (5, 2).
+Definition w_e (pk sh r : nat) : entry := EGood pk 0 (P sh r (100 * r + sh)).
+Definition w_one (c : nat) (e : entry) : list label := [ABegin c false w_duty Scheduled [e]; AEntry c e].
+Definition w_g7 : list partial := [P 1 7 701; P 2 7 702; P 3 7 703].
+
+(* F1a (before d3604d8), t = 3: shares 1,2,3 sign root 7 and fire; share 4 signs root 8 and the
+   root-7 group is handed over again *)
+Definition f1a_trace : list label :=
+  w_one 1 (w_e 0 1 7) ++ [AEnd 1 ENone None false] ++ w_one 2 (w_e 0 2 7) ++ [AEnd 2 ENone None false]
+  ++ w_one 3 (w_e 0 3 7) ++ [AEnd 3 ENone (Some [(0, 0, w_g7)]) false]
+  ++ w_one 4 (w_e 0 4 8) ++ [AEnd 4 ENone (Some [(0, 0, w_g7)]) false].
+
+Lemma dup_trigger_refuted_before_fix :
+  (exists s, run_gen 3 true false init f1a_trace = Some s) /\
+  status_ok f1a_trace = true /\ no_evict 3 f1a_trace = true /\ monitor 3 f1a_trace = false /\
+  run 3 init f1a_trace = None.
+Proof. split; [eexists; vm_compute; reflexivity|]. repeat split; vm_compute; reflexivity. Qed.
+
+(* F1b (before d8f5add), t = 2: in one set validator 0 reaches the threshold and validator 1
+   equivocates: the error is returned before the subscribers are called *)
+Definition f1b_trace : list label :=
+  [ABegin 1 false w_duty Scheduled [w_e 0 1 7; w_e 1 2 7]; AEntry 1 (w_e 0 1 7); AEntry 1 (w_e 1 2 7); AEnd 1 ENone None false;
+   ABegin 2 false w_duty Scheduled [w_e 0 2 7; EGood 1 0 (P 2 9 555)]; AEntry 2 (w_e 0 2 7); AEntry 2 (EGood 1 0 (P 2 9 555));
+   AEnd 2 EMismatch None false].
+
+Lemma batch_loss_refuted_before_fix :
+  (exists s, run_gen 2 true false init f1b_trace = Some s) /\
+  status_ok f1b_trace = true /\ no_evict 2 f1b_trace = true /\ monitor 2 f1b_trace = false /\
+  run 2 init f1b_trace = None.
+Proof. split; [eexists; vm_compute; reflexivity|]. repeat split; vm_compute; reflexivity. Qed.
+
+(* F1c (before 215089b), t = 2, exit duties: shares 1 and 2 complete slot 0 and fire; share 2 sends
+   exits for ten more slots, which evicts its slot-0 signature; it repeats the slot-0 one, which is
+   accepted as new and fires a second time with the same group *)
+Definition w_x (c slot sh : nat) (out : option outmap) : list label :=
+  [ABegin c false (slot, 4) Exempt [EGood 0 0 (P sh 7 sh)]; AEntry c (EGood 0 0 (P sh 7 sh)); AEnd c ENone out false].
+Definition f1c_out : outmap := [(0, 0, [P 1 7 1; P 2 7 2])].
+Definition f1c_q1 : list label := w_x 1 0 1 None ++ [ABegin 2 false (0, 4) Exempt [EGood 0 0 (P 2 7 2)]; AEntry 2 (EGood 0 0 (P 2 7 2))].
+Definition f1c_q2 : list label :=
+  flat_map (fun i => w_x (2 + i) i 2 None) (seq 1 10) ++ [ABegin 13 false (0, 4) Exempt [EGood 0 0 (P 2 7 2)]; AEntry 13 (EGood 0 0 (P 2 7 2))].
+Definition f1c_trace : list label :=
+  f1c_q1 ++ AEnd 2 ENone (Some f1c_out) false :: f1c_q2 ++ [AEnd 13 ENone (Some f1c_out) false].
+
+Lemma exempt_evict_refire_refuted_before_fix :
+  (exists s, run_gen 2 false true init f1c_trace = Some s) /\
+  status_ok f1c_trace = true /\
+  duty_of f1c_trace 2 = Some (0, 4) /\ duty_of f1c_trace 13 = Some (0, 4) /\
+  forallb (fun l => match l with ATrim _ => false | _ => true end) f1c_trace = true /\
+  run 2 init f1c_trace = None.
+Proof. split; [eexists; vm_compute; reflexivity|]. repeat split; vm_compute; reflexivity. Qed.
+
+(* Non-vacuity: a non-trivial trace (threshold reached, minority root, duplicate, equivocation,
+   trim and a second round, expired set) is accepted by the model and passes the monitor. *)
+Definition ex_trace : list label :=
+  w_one 1 (w_e 0 1 7) ++ [AEnd 1 ENone None false] ++ w_one 2 (w_e 0 4 8) ++ [AEnd 2 ENone None false]
+  ++ [ABegin 3 true w_duty Scheduled [w_e 0 2 7; w_e 1 2 7]; AEntry 3 (w_e 1 2 7); AEntry 3 (w_e 0 2 7); AEnd 3 ENone None true]
+  ++ [ABegin 4 false w_duty Scheduled [w_e 0 3 7; EGood 1 0 (P 2 9 555)]; AEntry 4 (w_e 0 3 7); AEntry 4 (EGood 1 0 (P 2 9 555));
+      AEnd 4 EMismatch (Some [(0, 0, w_g7)]) false]
+  ++ w_one 5 (w_e 0 3 7) ++ [AEnd 5 ENone None false]
+  ++ [ATrim w_duty] ++ w_one 6 (w_e 0 3 7) ++ [AEnd 6 ENone None false]
+  ++ [ABegin 7 true w_duty Expired [w_e 0 1 7]; AEnd 7 ENone None true].
+
+Example ex_trace_accepted :
+  (exists s, run 3 init ex_trace = Some s) /\ status_ok ex_trace = true /\ no_evict 3 ex_trace = true /\
+  monitor 3 ex_trace = true.
+Proof. split; [eexists; vm_compute; reflexivity|]. repeat split; vm_compute; reflexivity. Qed.
